@@ -42,7 +42,17 @@ class CxxParam(object):
         self.nptr = arg.is_pointer()
         self.ref = bool(arg.is_reference())
         self.const = bool(arg.const)
-        self.intent = arg.metaattrs["intent"] or "in"
+        # the declaration's intent, derived here from the documented defaults and not taken from what Shroud
+        # computed: explicit +intent wins; by value, const and function pointers are in; other pointers and
+        # references are inout
+        explicit = arg.attrs["intent"] if "intent" in arg.attrs else None
+        if explicit:
+            self.intent = explicit
+        elif arg.is_function_pointer() or not (arg.is_pointer() or arg.is_reference()) or arg.const:
+            self.intent = "in"
+        else:
+            self.intent = "inout"
+        self.intent_computed = arg.metaattrs["intent"]
         self.attrs = {k: v for k, v in arg.attrs.items() if v is not None}
         self.is_char = tm.name == "char"
         self.is_string = tm.base == "string" and tm.name == "std::string"
@@ -681,6 +691,13 @@ class WrapperHarness(object):
                     size = bv(o.size)
                     out.append(("argument '%s' is intent(in) but the caller's buffer was modified" % key,
                                 z3.And(z3.ULT(i, size), z3.Select(o.arr, i) != z3.Select(a0, i))))
+                if kind == "charp" and p.intent in ("out", "inout") and Nn is not None and r.cap_given is not None:
+                    # The library cannot know the Fortran length.  intent(inout) goes through a NUL-terminated
+                    # temporary, which must have room for LEN(actual) characters and the NUL; intent(out) is
+                    # handed the Fortran variable itself (by design: LEN(actual) bytes, blank-filled afterwards).
+                    need = sx(Nn) + 1 if p.intent == "inout" else sx(Nn)
+                    out.append(("argument '%s': the library is given a buffer of fewer than LEN(actual)%s bytes" % (key, "+1" if p.intent == "inout" else ""),
+                                z3.ULT(r.cap_given, need)))
                 if p.intent in ("out", "inout") and r.reply_len is not None:
                     if Nn is not None:
                         n64 = sx(Nn)
